@@ -10,7 +10,7 @@ tier=${1:-thorough}; shift || true
 seed=${1:-20260921}; shift || true
 ids=("$@")
 if [ ${#ids[@]} -eq 0 ]; then
-  ids=($(jq -r '.checks[].property' /verif/MANIFEST.json))
+  ids=($(jq -r '.checks[].property_id' /verif/MANIFEST.json))
 fi
 out=${VERIF_OUT:-$PWD/sweep-out}
 mkdir -p "$out"
